@@ -97,6 +97,9 @@ def run(tier, seed):
                                   "one_process": one_process, "initial_cache": init, "outcomes": outs})
     v.cov["traces_validated_against_impl"] += n
     v.cov["definition_sequences_executed"] = n
+    # a cached module of ANOTHER declaration that appears while this definition is under way is never used either
+    from props import C16
+    C16.schedules(v, refs, True, clause="Inv_C15_Own", pairs=[("B", "Bp")] if quick else [("A", "B"), ("B", "Bp"), ("Bp", "A")])
     v.cov["exhaustive"] = True
     v.cov["rule"] = ("TLC: every sequential history of %d definitions over 4 declarations x every initial cache content x bytecode "
                      "on/off; real: all 36 pairs and %d triples of {A, B, B', A/novec, B/off, B'/pack-only} x bytecode x same/real mtime "
